@@ -86,6 +86,30 @@ Proof.
   rewrite (split_str_go_limit (d :: sep') big limit Hne s 0%nat [] 0 0) by lia. now rewrite N.sub_0_r.
 Qed.
 
+(** * empty separator: the same law, relative to the one-character pieces *)
+Lemma split_empty_go_limit : forall limit str cnt, cnt < limit ->
+  split_empty_go str cnt limit = limit_spec (join []) (map (fun c => [c]) str) (N.to_nat (limit - cnt)).
+Proof.
+  intros limit str. induction str as [|c rest IH]; intros cnt Hl; cbn [split_empty_go map].
+  - unfold limit_spec. reflexivity.
+  - destruct (N.leb_spec limit (cnt + 1)) as [L|L].
+    + replace (N.to_nat (limit - cnt)) with 1%nat by lia.
+      destruct rest as [|d rest']; [reflexivity|].
+      rewrite limit_spec_one by discriminate.
+      change ([c] :: map (fun c0 => [c0]) (d :: rest')) with (map (fun c0 : N => [c0]) (c :: d :: rest')).
+      now rewrite join_empty_singletons.
+    + replace (N.to_nat (limit - cnt)) with (S (N.to_nat (limit - (cnt + 1)))) by lia.
+      rewrite limit_spec_cons by lia. rewrite <- IH by lia. reflexivity.
+Qed.
+
+Theorem split_str_empty_limit : forall str limit, 1 <= limit ->
+  split_str [] str limit = limit_spec (join []) (map (fun c => [c]) str) (N.to_nat limit) /\
+  join [] (split_str [] str limit) = str.
+Proof.
+  intros str limit H. unfold split_str. assert (H0 : (limit =? 0) = false) by (apply N.eqb_neq; lia). rewrite H0.
+  split; [|apply join_split_empty_go]. rewrite split_empty_go_limit by lia. now rewrite N.sub_0_r.
+Qed.
+
 (** the unlimited split of any string yields clean parts: together with [join_split_str] and
     [split_str_join] this characterises it as THE decomposition of the string at the leftmost
     non-overlapping occurrences of the separator *)
